@@ -112,6 +112,23 @@ def corpus_grammars():
         ("T0", c("d")),
         ("T1", ("push", ("star", c("c")))),
         ("T2", c("d"))]))
+    # a capture completed by an abandoned iteration of a rule-free repetition, then an action (seed C04-rulefree-loop-no-tokenindex)
+    cls = ("cls", False, False, [("r", 97, 99)])
+    out.append(dict(id="c%d" % len(out), nact=3, pinned=["a,b", "a,b,c", "b", "a,"], rules=[
+        ("R0", ("seq", [("star", ("seq", [("push", cls), c(",")])), A(0), ("q", cls), ("not", ("dot",))]))]))
+    out.append(dict(id="c%d" % len(out), nact=3, pinned=["a,b", "ab", "a,a,b"], rules=[
+        ("R0", ("seq", [("plus", ("seq", [("push", cls), ("q", c(","))])), A(0), ("q", ("seq", [("push", cls), c(";"), A(1)])), ("star", cls), ("not", ("dot",))]))]))
+    # lookahead as a whole alternative that is not the last: the next alternative must start where the choice started
+    # (seed C01-alt-norestore-lookahead)
+    out.append(dict(id="c%d" % len(out), nact=3, pinned=["acb\n", "acb", "\n", "ab", "acc"], rules=[
+        ("R0", ("seq", [("plus", N("R1")), N("R2"), ("not", ("dot",))])),
+        ("R1", ("seq", [("alt", [("and", ("seq", [c("a"), c("b")])), ("seq", [c("a"), c("c")]), ("not", c("c"))]), cls])),
+        ("R2", ("alt", [("not", ("dot",)), c("\n")]))]))
+    # a choice that -switch compiles into a switch, directly inside a repetition, one case recording a token before the
+    # rest of the case fails (seed C03-tokenfree-backtrack)
+    out.append(dict(id="c%d" % len(out), nact=3, pinned=["hf", "hfg", "dhf", "fgf", "hfgd"], rules=[
+        ("S", ("seq", [N("R0"), ("q", c("f")), ("not", ("dot",))])),
+        ("R0", ("plus", ("alt", [("seq", [("push", c("f")), c("g")]), c("h"), c("d")])))]))
     return out
 
 
